@@ -13,11 +13,11 @@ open AcqVerif.Channel
 theorem client_families (P : Act RT → Prop) (hb : ∀ a ∈ clientBase, P a)
     (hmon : ∀ s, ∀ a ∈ clMon s, P a) (hcfg : ∀ s, ∀ a ∈ clCfg s, P a) (hstart : ∀ s, ∀ a ∈ clStart s, P a)
     (herr : ∀ s, ∀ a ∈ clErr s, P a) (hstop : ∀ s, ∀ a ∈ clStop s, P a) (hacc : ∀ s, ∀ a ∈ clAcc s, P a)
-    (hflush : ∀ s r, ∀ a ∈ clientFlush s r, P a) : ∀ a ∈ clientActs, P a := by
+    (hflush : ∀ s, ∀ r ∈ ([2, 0, 1] : List Nat), ∀ a ∈ clientFlush s r, P a) : ∀ a ∈ clientActs, P a := by
   intro a h
   unfold clientActs clientPerStream at h
   simp only [List.mem_append, List.mem_flatMap] at h
-  rcases h with (h | ⟨s, _, h⟩) | ⟨s, _, r, _, h⟩
+  rcases h with (h | ⟨s, _, h⟩) | ⟨s, _, r, hr, h⟩
   · exact hb a h
   · rcases h with ((((h | h) | h) | h) | h) | h
     · exact hmon s a h
@@ -26,7 +26,7 @@ theorem client_families (P : Act RT → Prop) (hb : ∀ a ∈ clientBase, P a)
     · exact herr s a h
     · exact hstop s a h
     · exact hacc s a h
-  · exact hflush s r a h
+  · exact hflush s r hr a h
 
 /-! ## how client updates touch a stream -/
 
@@ -187,7 +187,7 @@ theorem StoOk.client_flush (s0 r0 : Nat) : ∀ a ∈ clientFlush s0 r0, ∀ rt, 
 
 theorem StoOk.client : ∀ a ∈ clientActs, ∀ rt, a.guard rt = true → (∀ s, StoOk (getS rt s)) → ∀ s, StoOk (getS (a.upd rt) s) :=
   client_families _ StoOk.client_base StoOk.client_clMon StoOk.client_clCfg StoOk.client_clStart StoOk.client_clErr
-    StoOk.client_clStop StoOk.client_clAcc StoOk.client_flush
+    StoOk.client_clStop StoOk.client_clAcc (fun s r _ => StoOk.client_flush s r)
 
 /-! ## lifting to scheduler steps and reachable states -/
 
